@@ -31,10 +31,12 @@ WhyLeaf(c) ==
   LET path == PathHashes(HO(c), c.tree, c.lf)
       cb == ControlBlockBytes(c.lf.ver, c.qg_parity, c.px, path)
       p == ParseControlBlock(c.cb) IN
-  IF c.cb # cb THEN "control-block-bytes"
+  \* a (version, script) pair that sits on several leaves has several proving paths: any of them is a correct control block
+  IF Cardinality({k \in 1..Len(Leaves(c.tree)) : Leaves(c.tree)[k] = c.lf}) = 1 /\ c.cb # cb THEN "control-block-bytes"
   ELSE IF ~p.ok \/ ~c.parse_ok THEN "control-block-parse"
   ELSE IF c.reser # c.cb THEN "control-block-parse-serialise-not-identity"
-  ELSE IF RootFromPath(HO(c), LeafHash(HO(c), c.lf), p.path, 1) # c.root THEN "spec-path"
+  ELSE IF Take(c.cb, 33) # Take(cb, 33) THEN "control-block-version-parity-or-internal-key"
+  ELSE IF RootFromPath(HO(c), LeafHash(HO(c), c.lf), p.path, 1) # c.root THEN "control-block-path-does-not-prove-the-leaf"
   ELSE IF c.ext_x # c.qg_x \/ c.ext_parity # c.qg_parity THEN "control-block-does-not-recompute-output-key"
   ELSE ""
 Why(c) == CASE c.kind = "tree" -> WhyTree(c) [] c.kind = "leafcb" -> WhyLeaf(c)
